@@ -27,7 +27,7 @@ ASSUMPTIONS = ["floats as reals", "even n_fft (the source allocates np.zeros(n/2
                "mean(t^2) != 0 (an all-zero taper is a degenerate division path)"]
 OUTSIDE = ["pole-zero responses (complex rational evaluation inside scipy)", "n_fft > 8", "rounding"]
 BOUNDS = {"quick": {"n_fft": [4, 8], "samples": "3-4", "windows": "1-2"}, "thorough": {"n_fft": [4, 8], "samples": "3-7", "windows": "1-3"}}
-INSTANCE_TIMEOUT = {"quick": 230, "thorough": 1500}
+INSTANCE_TIMEOUT = {"quick": 230, "thorough": 700}
 DT = 0.5
 
 
